@@ -60,7 +60,7 @@ pub fn run_scenario(sc: &J, out: &mut Vec<J>) {
         c.acmd41_left = c.acmd41_need;
         c.random_timing = t.get("random").and_then(|x| x.as_bool()).unwrap_or(false);
         c.rng = ju(sc, "seed", 1);
-        c.budget = ju(sc, "budget", 20_000_000);
+        c.budget = ju(sc, "budget", 3_000_000);
         if let Some(ms) = sc.get("misb").and_then(|x| x.as_array()) {
             for m in ms {
                 c.misb.push(Misb { when: m["when"].as_str().unwrap().to_string(), nth: ju(m, "nth", 1), what: m["what"].as_str().unwrap().to_string(),
@@ -172,9 +172,15 @@ pub fn run_scenario(sc: &J, out: &mut Vec<J>) {
         }));
         let mut c = card.borrow_mut();
         c.flush_idle_pub();
-        let evs: Vec<J> = std::mem::take(&mut c.log);
+        let mut evs: Vec<J> = std::mem::take(&mut c.log);
+        // a call that produces more bus events than any bounded call can (the longest legal one - a card that never becomes
+        // ready - makes about 40 000) has left every bound behind: keep the beginning, report it as over the budget
+        let truncated = evs.len() > 120_000;
+        if truncated {
+            evs.truncate(120_000);
+        }
         out.extend(evs);
-        let over = c.over_budget;
+        let over = c.over_budget || truncated;
         c.over_budget = false;
         let cb = c.call_bytes;
         match r {
